@@ -16,7 +16,8 @@ open Sat
 
 theorem ThReg.mono {N N' : Nat} {l : Lra} {i : Dl Int} {r : Dl IR} (h : ThReg N l i r) (hN : N ≤ N') : ThReg N' l i r :=
   ⟨fun e he => Nat.lt_of_lt_of_le (h.lra e he) hN, fun c hc => Nat.lt_of_lt_of_le (h.idl c hc) hN,
-    fun c hc => Nat.lt_of_lt_of_le (h.rdl c hc) hN, h.good, fun x b hb => Nat.lt_of_lt_of_le (h.aw x b hb) hN⟩
+    fun c hc => Nat.lt_of_lt_of_le (h.rdl c hc) hN, h.good, fun x b hb => Nat.lt_of_lt_of_le (h.aw x b hb) hN,
+    fun e he => Nat.lt_of_lt_of_le (h.sa e he) hN⟩
 
 theorem NetInv.satNewVar {n : Net} {orig L : Cnf} {fr : List Frame} (h : NetInv n orig L fr) :
     NetInv { n with sat := n.sat.newVar.2 } orig L fr :=
@@ -83,7 +84,7 @@ theorem NetInv.atAssume {n : Net} {orig L : Cnf} {fr : List Frame} (h : NetInv n
   · show ThReg ((n.sat.pushLevel p).enq p none).vals.length n.lra.push n.idl.push n.rdl.push
     have : ((n.sat.pushLevel p).enq p none).vals.length = n.sat.vals.length := by simp [enq, Sat.pushLevel]
     rw [this]
-    exact ⟨h.reg.lra, h.reg.idl, h.reg.rdl, Lra.step_good (n.sat, n.lra) .push h.reg.good trivial, h.reg.aw⟩
+    exact ⟨h.reg.lra, h.reg.idl, h.reg.rdl, Lra.step_good (n.sat, n.lra) .push h.reg.good trivial, h.reg.aw, h.reg.sa⟩
 
 theorem NetInv.assume {n : Net} {orig L : Cnf} {fr : List Frame} (h : NetInv n orig L fr) (hq : n.sat.queue = [])
     (hd : n.sat.dead = false) {p : Lit} (hv : n.sat.value p = none) (hp : p.var < n.sat.vals.length) (fuel : Nat)
